@@ -95,8 +95,28 @@ def monitor (m : Mon) (kind : Char) (impl : String) : Mon × String :=
   | _, _, _, _ =>
     if impl.startsWith "PANIC" ∨ impl.startsWith "CRASH" then (m, "-") else (m, "VIOL unparsable: " ++ impl)
 
+/-- `cref n rounds`: per round n real goroutines do TryIncrement (+ Decrement when it succeeded) while one
+    more releases the creator's reference, all at the same time.  Every acquired reference is released, so
+    by `cleanup_exactly_once_at_zero` / `no_resurrection` the cleanup has run exactly once, the count is 0
+    and a later TryIncrement fails — whatever the interleaving. -/
+def monitorStress (impl : String) : String :=
+  match (field impl "bad") >>= String.toNat?, (field impl "maxzeros") >>= String.toNat?,
+        (field impl "resurrected") >>= String.toNat? with
+  | some bad, some mz, some res =>
+    if mz > 1 then s!"VIOL cleanup ran {mz} times for one resource under concurrent TryIncrement/Decrement"
+    else if bad > 0 then "VIOL concurrent TryIncrement/Decrement: cleanup did not run exactly once at count zero"
+    else if res > 0 then "VIOL TryIncrement succeeded after the count had reached zero"
+    else "ok"
+  | _, _, _ => if impl.startsWith "PANIC" ∨ impl.startsWith "CRASH" then "-" else "VIOL unparsable: " ++ impl
+
 def step : Step DSt := fun d fs impl =>
   match fs with
+  | ["cref", n, r] =>
+    match n.toNat?, r.toNat? with
+    | some n, some r =>
+      if n < 1 ∨ n > 64 ∨ r < 1 then (d, "bad-op", "-")
+      else (d, s!"rounds={r} bad=0 maxzeros=1 resurrected=0", monitorStress impl)
+    | _, _ => (d, "bad-op", "-")
   | ["step", n] =>
     match n.toList.head? with
     | some kind =>
